@@ -1,6 +1,8 @@
 #!/usr/bin/env python3
 """Record the normalised-AST hashes of every pinned function (PINS lists of harness/props/*.py) from /repo into gen/pins.json."""
 import ast, glob, importlib, json, os, sys
+if os.path.realpath(sys.executable) != os.path.realpath("/venv/bin/python") and os.path.exists("/venv/bin/python"):
+    os.execv("/venv/bin/python", ["/venv/bin/python"] + sys.argv)   # ast.dump differs between Python versions; checks run under /venv
 V = os.path.dirname(os.path.dirname(os.path.abspath(__file__)))
 sys.path.insert(0, V); sys.path.insert(0, "/repo")
 from harness.fw import sha
